@@ -348,6 +348,7 @@ def run(ctx, rng):
     # composite basis (two unknowns, two test functions): Navier-Stokes-like residual
     _composite(ctx, rng, check)
     _derived_fields(ctx, rng, check)
+    _api_forms(ctx, rng, check)
     ctx.extra['nonlinear_max_relative_discrepancy'] = stats
     ctx.extra['nonlinear_tolerances'] = TOL
 
@@ -415,6 +416,111 @@ def _derived_fields(ctx, rng, check):
             d = rng.random(basis.N) - 0.5
             fd = (R(x0 + h * d) - R(x0 - h * d)) / (2 * h)
             check('fd_directional', key, np.abs(Jd @ d - fd).max(), np.abs(fd).max(), dict(desc, direction=d.tolist()))
+
+
+def _api_forms(ctx, rng, check):
+    """public call forms of NonlinearForm / JaxDiscreteField that forward to _assemble (coverage audit), each compared with the
+    independent NumPy assembly; call forms that fail on a valid input are reported under stable keys"""
+    import jax.numpy as jnp
+    import skfem as fe
+    import skfem.helpers as H
+    import skfem.autodiff.helpers as JH
+    from skfem.autodiff import JaxDiscreteField, NonlinearForm
+    cov = {}
+    m = fe.MeshTri().refined(1)
+    basis = fe.Basis(m, fe.ElementTriP1())
+    x0 = 0.5 + 0.5 * rng.random(basis.N)
+    cvec = 1. + rng.random(basis.N)
+    desc = {'mesh': 'MeshTri().refined(1)', 'element': 'ElementTriP1', 'x': x0.tolist()}
+
+    def ref_R(c, lead):
+        return fe.LinearForm(lambda v, w: (w['c'] * w['u0'] * w['u0'] * v)).assemble(basis, u0=basis.interpolate(x0), c=c)
+
+    def ref_J(c):
+        return fe.BilinearForm(lambda u, v, w: 2. * w['c'] * w['u0'] * u * v).assemble(basis, u0=basis.interpolate(x0), c=c).toarray()
+    params = [('scalar', 2.5), ('dof-vector', cvec), ('DiscreteField', basis.interpolate(cvec)),
+              ('ndarray(nelems,nqp)', 1. + rng.random((m.t.shape[1], basis.X.shape[1])))]
+    # extra form parameters (Form._normalize_asm_kwargs), the parameter to the RIGHT of the field objects
+    for kind, c in params:
+        key = f'api:nonlinear-kwargs:{kind}'
+        ctx.count(('api', 'kwargs', kind), nontrivial=True)
+        try:
+            J, r = NonlinearForm(lambda u, v, w: u * u * v * w['c']).assemble(basis, x=x0, c=c)
+        except Exception as e:  # noqa: BLE001
+            ctx.fail(key, f'NonlinearForm.assemble(basis, x=x, c=<{kind}>) with the integrand u*u*v*w["c"] raises {type(e).__name__}: {e}', dict(desc, c=kind))
+            continue
+        check('hand_linearised', key, np.abs(J.toarray() - ref_J(c)).max(), np.abs(ref_J(c)).max(), dict(desc, c=kind))
+        check('residual', key, np.abs(r + ref_R(c, False)).max(), np.abs(ref_R(c, False)).max(), dict(desc, c=kind))
+    cov['NonlinearForm.assemble(**kwargs): scalar / DOF vector / DiscreteField / (nelems, nqp) array parameters'] = 'now: vs BilinearForm / LinearForm with the same kwargs'
+    # ... and to the LEFT (array (op) field dispatches to NumPy first, which asks the field for __array__)
+    for kind, c in params[1:]:
+        ctx.count(('api', 'kwargs-left', kind), nontrivial=True)
+        try:
+            J, r = NonlinearForm(lambda u, v, w: w['c'] * u * u * v).assemble(basis, x=x0, c=c)
+            check('hand_linearised', 'nonlinear-kwarg-array-times-field', np.abs(J.toarray() - ref_J(c)).max(), np.abs(ref_J(c)).max(), dict(desc, c=kind))
+        except Exception as e:  # noqa: BLE001
+            ctx.fail('nonlinear-kwarg-array-times-field',
+                     f'NonlinearForm(lambda u, v, w: w["c"] * u * u * v).assemble(basis, x=x, c=<{kind}>) raises {type(e).__name__}: {e} '
+                     '(a NumPy array / DiscreteField parameter as LEFT operand of a field; u * u * v * w["c"] works)', dict(desc, c=kind, c_value=np.asarray(c).tolist()))
+    cov['NonlinearForm integrand: NumPy parameter (op) field (parameter on the left)'] = 'now: FAILS on the current tree (key nonlinear-kwarg-array-times-field)'
+    # the array protocol of the field wrapper
+    u = JaxDiscreteField(value=jnp.asarray(np.array([[1., 2.], [3., 4.]])))
+    ctx.count(('api', 'jdf-array-protocol'), nontrivial=True)
+    for nm, fn in (('np.asarray(field)', lambda: np.asarray(u)), ('np.exp(field)', lambda: np.exp(u)), ('jnp.asarray(field)', lambda: jnp.asarray(u))):
+        try:
+            got = np.asarray(fn(), dtype=float)
+            exp = np.array([[1., 2.], [3., 4.]]) if 'exp' not in nm else np.exp(np.array([[1., 2.], [3., 4.]]))
+            if not np.allclose(got, exp, rtol=1e-14):
+                ctx.fail('jdf-array-protocol', f'{nm} is not the value array', {'call': nm, 'got': got.tolist()})
+        except Exception as e:  # noqa: BLE001
+            ctx.fail('jdf-array-protocol', f'{nm} raises {type(e).__name__}: {e} (JaxDiscreteField.__array__ returns a jax Array, not a numpy.ndarray)',
+                     {'call': nm, 'field_value': [[1., 2.], [3., 4.]]})
+    if tuple(u.shape) != (2, 2) or not np.array_equal(np.asarray(u[0]), [1., 2.]) or len(u.astuple) != 9:
+        ctx.fail('api:jdf-shape-getitem', 'JaxDiscreteField.shape / __getitem__ / astuple', {})
+    cov['JaxDiscreteField.__array__ (np.asarray / np.exp / jnp.asarray of a field)'] = 'now: FAILS on the current tree (key jdf-array-protocol)'
+    cov['JaxDiscreteField.shape / __getitem__ / astuple'] = 'now'
+    # partial, decorator options, facet bases, x given as zeros / None
+    JA, rA = NonlinearForm(lambda u, v, w: 3. * u * u * v).assemble(basis, x=x0)
+    for nm, build in (('partial', lambda: NonlinearForm(lambda a, u, v, w: a * u * u * v).partial(3.)),
+                      ('decorator(nthreads=2)', lambda: NonlinearForm(nthreads=2)(lambda u, v, w: 3. * u * u * v)),
+                      ('NonlinearForm(NonlinearForm)', lambda: NonlinearForm(NonlinearForm(lambda u, v, w: 3. * u * u * v)))):
+        ctx.count(('api', nm), nontrivial=True)
+        try:
+            J, r = build().assemble(basis, x=x0)
+            check('hand_linearised', f'api:nonlinearform-{nm}', abs(J - JA).max(), abs(JA).max(), dict(desc, form=nm))
+            check('residual', f'api:nonlinearform-{nm}', np.abs(r - rA).max(), np.abs(rA).max(), dict(desc, form=nm))
+        except Exception as e:  # noqa: BLE001
+            ctx.fail(f'api:nonlinearform-{nm}', f'{nm} raises {type(e).__name__}: {e}', dict(desc, form=nm))
+    cov['Form.partial / decorator with options / Form(Form) on NonlinearForm'] = 'now: same (J, rhs) as the plain form'
+    J0, r0 = NonlinearForm(lambda u, v, w: (1. + u) * u * v).assemble(basis)
+    Jz, rz = NonlinearForm(lambda u, v, w: (1. + u) * u * v).assemble(basis, x=basis.zeros())
+    check('hand_linearised', 'api:nonlinearform-x-none', abs(J0 - Jz).max(), abs(Jz).max(), desc)
+    check('residual', 'api:nonlinearform-x-none', np.abs(r0 - rz).max(), 1., desc)
+    cov['NonlinearForm.assemble(x=None) == x=basis.zeros()'] = 'now'
+    fb = basis.boundary()
+    Jf, rf = NonlinearForm(lambda u, v, w: u * u * v * (1. + w.n[0] * w.x[1])).assemble(fb, x=x0)
+    Rf = fe.LinearForm(lambda v, w: w['u0'] * w['u0'] * v * (1. + w.n[0] * w.x[1])).assemble(fb, u0=fb.interpolate(x0))
+    Af = fe.BilinearForm(lambda u, v, w: 2. * w['u0'] * u * v * (1. + w.n[0] * w.x[1])).assemble(fb, u0=fb.interpolate(x0)).toarray()
+    ctx.count(('api', 'facet-basis'), nontrivial=True)
+    check('residual', 'api:nonlinearform-facet-basis', np.abs(rf + Rf).max(), np.abs(Rf).max(), desc)
+    check('hand_linearised', 'api:nonlinearform-facet-basis', np.abs(Jf.toarray() - Af).max(), np.abs(Af).max(), desc)
+    cov['NonlinearForm on a FacetBasis (w.n, w.x)'] = 'now: vs LinearForm / BilinearForm on the same FacetBasis'
+    # the deprecated alias inherited from Form
+    ctx.count(('api', 'coo_data'), nontrivial=True)
+    try:
+        cd = NonlinearForm(lambda u, v, w: u * u * v).coo_data(basis, x=x0)
+        ok = hasattr(cd, '__len__') and len(cd) == 2
+        if not ok:
+            ctx.fail('nonlinearform-coo_data', 'NonlinearForm.coo_data does not return the (matrix, vector) pair of elemental()', desc)
+    except Exception as e:  # noqa: BLE001
+        ctx.fail('nonlinearform-coo_data', f'NonlinearForm(form).coo_data(basis, x=x) (alias of elemental inherited from Form) raises {type(e).__name__}: {e}', desc)
+    cov['Form.coo_data (deprecated alias) on NonlinearForm'] = 'now: FAILS on the current tree (key nonlinearform-coo_data)'
+    cov.update({'NonlinearForm.assemble / _assemble / elemental (x vector, hessian option, composite, vector, H(div)/H(curl)/C1 elements)': 'covered before',
+                'JaxDiscreteField arithmetic special methods': 'covered before (theorem + operator oracle + integrands)',
+                'every function of skfem/helpers.py and skfem/autodiff/helpers.py (float, int64, complex, trailing shapes, fields)': 'covered before',
+                'Form.block': 'out of scope for C20 (block selection of composite forms: C19)',
+                'register_pytree_node flatten/unflatten of JaxDiscreteField': 'covered before implicitly (every linearize call)'})
+    ctx.extra['api_coverage'] = cov
 
 
 def _composite(ctx, rng, check):
